@@ -109,6 +109,24 @@ theorem monitor_complete (pol : Policy) (tr : List Event)
   have := runFrom_complete pol tr MState.init .load rfl rfl h
   simp [accepts, monitor, this]
 
+/-- an exec-phase event of a trace is an exec-phase event of every extension of the trace -/
+theorem execEvent_append {ph : Phase} {tr : List Event} {e : Event} (more : List Event)
+    (h : ExecEvent ph tr e) : ExecEvent ph (tr ++ more) e := by
+  induction h with
+  | here => exact .here
+  | there _ ih => exact .there ih
+
+/-- **Rejection is permanent** (the monitored property is a safety property): whatever happens
+    later cannot make a forbidden exec-phase event acceptable — if an extension of a trace is
+    accepted then so is the trace itself; equivalently, once a prefix is rejected every
+    continuation is rejected. -/
+theorem rejection_is_permanent (pol : Policy) (tr more : List Event)
+    (h : accepts pol (tr ++ more) = true) : accepts pol tr = true := by
+  have hacc : (runFrom pol MState.init (tr ++ more)).verdict = .accept := by
+    simpa [accepts, monitor] using h
+  exact monitor_complete pol tr (fun e he =>
+    runFrom_sound pol (tr ++ more) MState.init .load rfl hacc e (execEvent_append more he))
+
 /-- nothing is constrained before the begin marker: the load phase may read modules and data -/
 theorem load_phase_unconstrained (pol : Policy) (tr : List Event) (h : tr.contains .markBegin = false) :
     accepts pol tr = true := by
